@@ -24,6 +24,9 @@ def strip_ref(t):
     return re.sub(r"^&('[a-z_0-9]+ )?(mut )?", '', t or '')
 
 
+LAST_ROOT = [('', ())]
+
+
 class Hasher:
     def __init__(self, ctor):
         self.ctor = ctor
@@ -38,7 +41,7 @@ class Hasher:
 
 
 class Upd:
-    __slots__ = ('kind', 'dtype', 'proj', 'origin', 'call', 'body', 'rb', 'cond', 'via')
+    __slots__ = ('kind', 'dtype', 'proj', 'origin', 'call', 'body', 'rb', 'cond', 'via', 'root_ty', 'root_path')
 
     def sig(self):
         return (self.kind, self.dtype, self.proj, self.origin)
@@ -89,6 +92,12 @@ def base_of(body, op, depth=0):
             if rv['k'] == 'cast' and is_place(rv['a']):
                 pl = op_place(rv['a'])
                 path = field_path(pl) + path
+                l = pl['l']
+                continue
+            if rv['k'] == 'agg' and rv.get('tuple') and path and str(path[0]).isdigit() and int(path[0]) < len(rv['ops']) \
+                    and is_place(rv['ops'][int(path[0])]):
+                pl = op_place(rv['ops'][int(path[0])])
+                path = field_path(pl) + tuple(path[1:])
                 l = pl['l']
                 continue
             break
@@ -142,6 +151,7 @@ def hasher_id(F, body, op, depth=0):
 
 
 def origin_of(F, body, l, path, outs, depth=0):
+    LAST_ROOT[0] = (body.local_ty(l) if l is not None else '', tuple(path))
     """Human / comparable name of where a datum comes from."""
     if body.is_param(l) and not (body.kind == 'Closure' and l == 1):
         nm = body.var_name(l) or 'arg%d' % l
@@ -303,6 +313,7 @@ def transcripts(F, root):
                         org, rest = origin_of(F, body, l, path, outs)
                         u.origin = org
             u.cond = None
+            u.root_ty, u.root_path = LAST_ROOT[0]
             h.events.append(u)
     for h in hlist:
         h.events.sort(key=lambda u: (order.get(u.rb, 10 ** 6), u.call.ln))
